@@ -527,7 +527,7 @@ def _splice_row(row, I, sh, start, OL, E, st, fl, F, roles):
 
 def _before(I, a, b):
     """effect a occurs before b on every path reaching b (dominance; callee-internal effects count at their call site)"""
-    return before_in(I, a, b)
+    return before_in_collapsed(I, a, b)
 
 
 def _reach(I, a, b):
@@ -759,8 +759,10 @@ def _clone_row(res, ctx, arms):
                 row.fail("the new storage is grown without / with the wrong capacity test (needs CAP < LEN(source)): fixed-capacity backends cannot expand, and a too-small "
                          "fresh storage must be grown", r, "reserve-guard")
             for c in cl:
-                if not before_in(I, r, c):
-                    row.fail("elements are cloned before room is made", c, "reserve-order")
+                def ok_at(g, r=r, cap=cap):
+                    return g == r.gid or implies(I.facts_at(g), cmp_fact("Le", L0, cap))
+                if not every_path_to(I, c.gid, ok_at):
+                    row.fail("a path reaches the clone call without room for LEN(source) elements having been made or shown to exist (CAP >= LEN)", c, "reserve-all-paths")
         rets = I.all_effects(("RETURN",))
         tree = rets[0]["value"] if rets else None
         fm = dict(tree[1]) if isinstance(tree, tuple) and tree and tree[0] == "tree" else {}
